@@ -1024,6 +1024,9 @@ namespace bloch::runtime {
     void RuntimeEvaluator::buildClassTable(Program& program) {
         m_classTable.clear();
         m_genericTemplates.clear();
+        m_buildingClassTable = true;
+        auto doneBuilding = [this](void*) { m_buildingClassTable = false; };
+        std::unique_ptr<void, decltype(doneBuilding)> buildingGuard(this, doneBuilding);
 
         bool hasExplicitObjectClass = false;
         for (const auto& clsNode : program.classes) {
@@ -1334,7 +1337,11 @@ namespace bloch::runtime {
         if (rc->staticStorage.size() < rc->staticFields.size())
             rc->staticStorage.resize(rc->staticFields.size());
         m_classTable[key] = rc;
-        initStaticFields(rc.get());
+        // A specialisation needed while the class table is still being built (class IntBox extends
+        // Box<int>) is initialised with all the other classes once the table is complete: its static
+        // initialisers may use classes declared later in the file.
+        if (!m_buildingClassTable)
+            initStaticFields(rc.get());
         return rc.get();
     }
 
